@@ -1,13 +1,13 @@
-"""Reproducer of the C17 finding (theorems C17_chsize_only_last_grows_refuted / C17_read_after_resize_refuted) with the
-real snapraid binary.
+"""Regression scenario of the C17 finding repaired by /repo commit 391ce18 (real snapraid binary).
 
   sync #1 with --test-parity-limit chosen so that split 0 and split 2 can hold one 1 KiB block and split 1 none:
           recorded sizes become [1024, 0, 1024]
-  sync #2 after adding a file, without the limit (= space was freed on the first parity disk):
-          parity_split_is_fixed(0) looks at split 1 only (size 0) -> split 0 is "growing" -> it is extended to 3072 and
-          split 2, which holds the parity of block 1, is truncated to 0.  sync exits 0 with "Everything OK".
-  check:  1 error (the parity of block 1 is gone).
-
+  sync #2 after adding a file, without the limit (= space was freed on the first parity disk).
+          OLD behaviour: parity_split_is_fixed(0) looked at split 1 only (size 0) -> split 0 was "growing" -> it was
+          extended to 3072 and split 2, which holds the parity of block 1, truncated to 0; sync exited 0 with
+          "Everything OK" and check then reported 1 error.   -> 'defect_reproduced'
+          EXPECTED now: split 0 and 1 keep their sizes, the last split takes the growth ([1024, 0, 2048]), check passes.
+                                                               -> 'passed'
 Run:  python3 harness/py/c17_repro_midzero.py        (builds the tool from VERIF_REPO or /repo)
 """
 import os, sys, random
@@ -45,7 +45,9 @@ def reproduce(tool, D):
     rc, out = sr(['check'])
     res['check2_rc'] = rc
     res['check2_tail'] = ' '.join(out.split()[-12:])
-    res['defect_reproduced'] = (res['sizes_after_sync1'] == [1024, 0, 1024] and res['sync2_rc'] == 0 and res['sizes_after_sync2'][2] == 0 and rc != 0)
+    res['defect_reproduced'] = (res['sizes_after_sync1'] == [1024, 0, 1024] and (res['sizes_after_sync2'][0] != 1024 or res['sizes_after_sync2'][2] < 1024 or rc != 0))
+    res['passed'] = (res['sync1_rc'] == 0 and res['check1_rc'] == 0 and res['sizes_after_sync1'] == [1024, 0, 1024] and
+                     res['sync2_rc'] == 0 and res['sizes_after_sync2'] == [1024, 0, 2048] and rc == 0)
     return res
 
 
